@@ -82,6 +82,30 @@ pub fn is_compact(field: &syn::Field) -> bool {
     .is_some()
 }
 
+/// Look for a `#[codec(encoded_as = "$EncodeAs")]` outer attribute on the given `Field`.
+/// If found, returns the type the field is encoded as.
+pub fn maybe_encoded_as(field: &syn::Field) -> Option<syn::Type> {
+    let outer_attrs = field
+        .attrs
+        .iter()
+        .filter(|attr| attr.style == AttrStyle::Outer);
+    codec_meta_item(outer_attrs, |meta| {
+        if let Meta::NameValue(ref nv) = meta {
+            if nv.path.is_ident("encoded_as") {
+                if let Expr::Lit(ExprLit {
+                    lit: Lit::Str(ref s),
+                    ..
+                }) = nv.value
+                {
+                    return s.parse::<syn::Type>().ok();
+                }
+            }
+        }
+
+        None
+    })
+}
+
 /// Look for a `#[codec(skip)]` in the given attributes.
 pub fn should_skip(attrs: &[Attribute]) -> bool {
     codec_meta_item(attrs.iter(), |meta| {
